@@ -17,6 +17,32 @@ CLAIMED = {
         technique="symbolic execution of the real Python code with proxy values (path enumeration by z3 feasibility) "
                   "+ one QF_LRA validity query per obligation and path",
         design="3.5"),
+    "C14": dict(
+        text="The real Time class is executed on bit-precise IEEE binary64 proxies; cvc5 proves for every quotient "
+             "(integral, <= 2^52), remainder in [0,1) and displacement in [0, 2^40]: normalised result, never "
+             "decreasing, remainder = error-free fraction of the single rounding fl(r+dt), quotient = fl(q + floor), "
+             "from_float exact, +inf absorbing/maximal; monotonicity in the displacement through cuts with lemmas; "
+             "z3 proves all six comparisons equal the rational order (reals) and the subtraction error bound in the "
+             "standard rounding model.",
+        note="Bounds as stated in the property; quick tier assumes three generic IEEE facts (exactness of the sum of "
+             "integral doubles below 2^53, monotonicity of fl-addition, strict monotonicity for integral addends) that "
+             "the thorough tier proves; subtraction bound is 6 ulp in the rounding model.",
+        technique="symbolic execution of the real Python code on IEEE-754 bit-vector proxies (QF_FP, cvc5) and on "
+                  "reals / rounding-model reals (QF_NRA, z3); term-level cuts with separately discharged lemmas",
+        design="3.14"),
+    "C18": dict(
+        text="The real Walker (alias table) is executed on n <= 5 (quick) / 6 (thorough) symbolic non-negative rates; "
+             "each construction path is a table shape with symbolic entries, and z3 proves per path: rows have 1-2 "
+             "entries, first rate in [0,mean], rows add to the mean, total = sum, the closed-form selection "
+             "probability of every item equals rate/total, sample_cell returns the first entry iff the coin is below "
+             "its rate, zero-rate items are never sampled (one recorded known finding at coin == 0).",
+        note="Ideal reals; random.choice/uniform stubbed by their documented ranges; probability computed in closed "
+             "form from the decision rule proved per path. The cell-veto handler sentences (rate times speed, target "
+             "cell by translate, bound of the sampled offset) are decided by the handler part when present in the "
+             "evidence.",
+        technique="symbolic execution of the real Python code with proxy values (z3 path feasibility, frontier "
+                  "splitting over workers) + one QF_NRA validity query per obligation and path",
+        design="3.18"),
 }
 
 NOT_APPLICABLE = {
